@@ -35,6 +35,13 @@ mod id {
         }
     }
 
+    #[cfg(hannibal_verif)]
+    impl ContextID {
+        pub(crate) const fn raw(self) -> u64 {
+            self.0
+        }
+    }
+
     impl std::fmt::Display for ContextID {
         fn fmt(&self, f: &mut std::fmt::Formatter<'_>) -> std::fmt::Result {
             write!(f, "{}", self.0)
